@@ -22,6 +22,9 @@ def run(tier, seed):
         else:
             continue  # other exception classes are judged by C06 / C10
         out["violations"].append(_pipe.violation(rec, clause, "native-wide", "C05"))
+    for pb in r.get("probe_bad", []):
+        out["violations"].append(_pipe.violation(pb, pb["what"], "overflow-probe", "C05"))
+    out["coverage"]["overflow_probes"] = r.get("probes", 0)
     # the sub-graph lattice and its emission order (the mechanism of defect #2), bound by exhaustive conformance
     from .. import structure_conf
 
